@@ -322,10 +322,53 @@ class SignEval:
             return A(0)
         if sh == 'try_from' and args:
             return A(0)
+        # a call through a function-pointer parameter (`op(*d)`): the functions the product callers pass for it
+        mi = re.match(r'^<indirect:_(\d+)>$', res)
+        ps = sorted(mir.provenance(fn, int(mi.group(1)), pass_through=set()).params) if mi else []
+        if mi and len(ps) == 1 and depth < 40:
+            pidx = ps[0]
+            cands = []
+            callers = [x for x in self.prog.callers.get(fn.name, []) if not mir.is_testsupport(x.fn.name)]
+            for x in callers:
+                a = x.args[pidx - 1] if pidx - 1 < len(x.args) else None
+                defs = set()
+                if a is not None and a.get('k') == 'const':
+                    defs = {a.get('def') or ''}
+                elif a is not None and is_place(a):
+                    oa = mir.provenance(x.fn, a, pass_through=set())
+                    defs = {d for (_, _, d) in oa.consts if d} if not oa.params and not oa.calls else set()
+                g = self.prog.resolve(next(iter(defs)), x.fn.crate) if len(defs) == 1 else None
+                cands.append(g)
+            if cands and all(g is not None and g.kind in ('Fn', 'AssocFn') for g in cands):
+                out = frozenset()
+                for g in {g.name: g for g in cands}.values():
+                    if ROUNDERS.search(g.name):
+                        self.rounded = True
+                        out |= round_s(A(0))
+                    elif 'rust_decimal::Decimal' == g.ty.get(0, ''):
+                        sub = SignEval(self.prog, g, self.subst)
+                        for i, a in enumerate(args):
+                            sub.memo[i + 1] = self.eval_op(a, depth + 1)
+                        out |= sub.eval_local(0, depth + 1)
+                        self.inexact |= sub.inexact
+                        self.rounded |= sub.rounded
+                    else:
+                        return TOP
+                return out
+            return TOP
         # crate-local function returning Decimal: evaluate its return value when it is simple
         g = self.prog.resolve(res, fn.crate) or self.prog.resolve(decl, fn.crate)
         if g is not None and 'rust_decimal::Decimal' == g.ty.get(0, '') and depth < 40:
-            sub = SignEval(self.prog, g, self.subst)
+            sub = SignEval(self.prog, g, dict(self.subst))
+            # the callee's constraint parameters, bound from the argument types (`&ConstrainedDecimalRatio<Pos>` for `&..Ratio<CONSTRAINT>`)
+            GEN = re.compile(r'ConstrainedDecimal(?:Ratio)?<(?:util::decimal::constraint::)?(\w+)>')
+            for i, a in enumerate(args):
+                pt = g.ty.get(i + 1, '') or ''
+                at = fn.ty.get(op_local(a) if is_place(a) else -1, '') or ''
+                for pn, an in zip(GEN.findall(pt), GEN.findall(at)):
+                    an = self.subst.get(an, an)
+                    if pn not in S and an in S:
+                        sub.subst[pn] = an
             # bind parameters by sign
             for i, a in enumerate(args):
                 sub.memo[i + 1] = self.eval_op(a, depth + 1)
@@ -443,6 +486,12 @@ FORMAT_INTERNAL = re.compile(r'^(std|core|alloc)::fmt::|std::fmt::format|alloc::
                              r'std::string::String::new$|std::string::String::from$|Arguments')
 
 
+def _is_closure_ty(g, local, closure_fn):
+    """does `local` of g hold (a reference to) the closure `closure_fn`?  Closure types print as {closure@file:line:col: ...}"""
+    t = g.ty.get(local if local is not None else -1, '')
+    return '{closure@%s:%d:' % (closure_fn.file, closure_fn.line) in t
+
+
 def const_derived(prog, fn, operand, depth=0):
     """is the value built only from compile-time constants (through format!/to_string/...) and from parameters that every
     product caller fills with such values (two levels up)?  Returns (bool, reason)."""
@@ -453,7 +502,7 @@ def const_derived(prog, fn, operand, depth=0):
     if org.upvars and fn.kind == 'Closure':
         return False, 'captured variable'
     for p in org.params:
-        if depth >= 2:
+        if depth >= 3:
             return False, 'parameter chain too deep'
         owner = fn
         if fn.kind == 'Closure':
@@ -462,6 +511,31 @@ def const_derived(prog, fn, operand, depth=0):
             if parent is None or p == 1:
                 return False, 'closure environment'
             ok_any = False
+            # (a) the closure is handed to an iterator / Option adapter: its argument is an item of the receiver
+            clos_locals = {st['dst']['l'] for b in parent.blocks.values() for st in b['stmts']
+                           if st['r']['rv'] == 'agg' and st['r']['kind'] == 'closure:' + fn.name and not st['dst']['p']}
+            handed = [c for c in parent.calls if any(mir.is_place(a) and not a['pl']['p'] and a['pl']['l'] in clos_locals for a in c.args[1:])]
+            if handed:
+                for c in handed:
+                    if not (c.decl.startswith('std::iter::') or re.search(r'^std::(option::Option|result::Result)<', c.decl) or
+                            re.search(r'^std::(option::Option|result::Result)::', c.decl) or 'slice' in c.decl):
+                        return False, 'closure handed to %s' % c.callee
+                    ok, why = const_derived(prog, parent, c.args[0], depth + 1)
+                    if not ok:
+                        return False, 'closure applied by %s to values that are not constants (%s)' % (c.short, why)
+                continue
+            # (b) the closure is called from a sibling closure that captured it
+            sib_calls = [(g, c) for g in prog.closures_of(parent) if g is not fn for c in g.calls
+                         if c.short in ('call', 'call_mut', 'call_once') and c.args and
+                         fn.name.rsplit('::', 1)[-1] != '' and _is_closure_ty(g, c.arg_local(0), fn)]
+            if sib_calls:
+                for g, c in sib_calls:
+                    if len(c.args) < 2:
+                        return False, 'closure called without arguments'
+                    ok, why = const_derived(prog, g, c.args[1], depth + 1)
+                    if not ok:
+                        return False, 'closure called from %s with a non-constant argument (%s)' % (g.name, why)
+                ok_any = True
             for c in parent.calls:
                 if c.short in ('call', 'call_mut', 'call_once') and c.args and fn.local_name.split('::')[-1] in parent.ty.get(c.arg_local(0) or -1, '') \
                         or (c.short in ('call', 'call_mut', 'call_once') and '{closure' in parent.ty.get(c.arg_local(0) or -1, '')):
